@@ -18,6 +18,8 @@ import Verif.Lemmas.StateCacheDrop
 import Verif.Lemmas.StateCacheDistinct
 import Verif.Lemmas.StateCacheLink
 import Verif.Lemmas.StateCachePublish
+import Verif.Lemmas.StateCacheRecommit
+import Verif.Lemmas.StateCacheCombined
 namespace Verif.Props.C06
 open Verif.SC
 
@@ -51,6 +53,36 @@ theorem memo_sound (capK maxDepth : Nat) (ops : List (Op H K B V))
       subst hxy
       exact ⟨by rw [hp], hw⟩
   · cases h
+
+/-- `memo_stable`: an entry of the state cache — a block's own write or a memoised answer — never changes and never
+    disappears while no LRU evicts: if after a history `pre` the cache holds `e` for `(k, b)`, then after any continuation
+    `post` it still holds exactly `e`, and `e` is still the chain answer of the (grown) tree. A memoised positive answer can
+    never become wrong later, because the entries of committed blocks never change. -/
+theorem memo_stable (capK maxDepth : Nat) (pre post : List (Op H K B V))
+    (hne : NoEviction (Sys.new capK maxDepth) (pre ++ post)) (k : K) (b : B) (e : Entry V)
+    (he : entryAt ((Sys.new capK maxDepth : Sys H K B V).run pre).1.sc k b = some e) :
+    entryAt ((Sys.new capK maxDepth : Sys H K B V).run (pre ++ post)).1.sc k b = some e ∧
+    Chain ((Sys.new capK maxDepth : Sys H K B V).treeRun [] (pre ++ post)) k b e := by
+  have hev : ((Sys.new capK maxDepth : Sys H K B V).run (pre ++ post)).1.sc.evictions
+      = (Sys.new capK maxDepth : Sys H K B V).sc.evictions := hne
+  rw [Sys.run_append] at hev
+  have h1 : ((Sys.new capK maxDepth : Sys H K B V).run pre).1.sc.evictions = (Sys.new capK maxDepth : Sys H K B V).sc.evictions :=
+    Nat.le_antisymm (by rw [← hev]; exact Sys.run_ev_le _ _) (Sys.run_ev_le _ _)
+  have hS1 := Sys.run_inv (Sys.new capK maxDepth : Sys H K B V) pre (SysInv.init capK maxDepth) h1
+  have hne2 : NoEviction ((Sys.new capK maxDepth : Sys H K B V).run pre).1 post := by unfold NoEviction; rw [hev, h1]
+  have hS2 := Sys.run_inv _ post hS1 hne2
+  have hkeep := Sys.run_keep _ post hS1 hne2 k b (by rw [he]; simp)
+  have hc1 : Chain ((Sys.new capK maxDepth : Sys H K B V).treeRun [] pre) k b e := hS1.inv.sound k b e he
+  have hc2 : Chain ((Sys.new capK maxDepth : Sys H K B V).treeRun [] (pre ++ post)) k b e := by
+    rw [Sys.treeRun_append]; exact Chain.mono (Sys.treeRun_le _ _ post) hc1
+  refine ⟨?_, hc2⟩
+  rw [Sys.run_append]
+  cases h2 : entryAt (((Sys.new capK maxDepth : Sys H K B V).run pre).1.run post).1.sc k b with
+  | none => exact absurd h2 hkeep
+  | some e' =>
+    have hc3 := hS2.inv.sound k b e' h2
+    rw [← Sys.treeRun_append] at hc3
+    rw [Chain.det hc3 hc2]
 
 /-- `C06_partial`: without eviction, every hit at every layer (transaction, block, query, state) equals the value most
     recently written on the context's chain — own pending writes first, then the chain of the block the context sits on
@@ -180,6 +212,48 @@ example : ((Sys.new 200 2 : Sys Nat Nat Nat Nat).run linkHistory).1.sc.entryEv =
     0 < ((Sys.new 200 2 : Sys Nat Nat Nat Nat).run linkHistory).1.sc.evictions ∧
     NoRecommit (Sys.new 200 2 : Sys Nat Nat Nat Nat) [] linkHistory := by
   refine ⟨by decide, by decide, by decide⟩
+
+/-! ### key-map drops AND link evictions in one history -/
+
+/-- `drops_and_link_evictions_safe`: `Remove`s (outer-LRU evictions of whole version maps) at arbitrary points and a link
+    cache that evicts at will, together: if no per-key version map evicts, blocks are committed in ancestor order and no
+    block is committed again after its link was lost, every lookup is still correct. The last condition is necessary
+    (`recommit_after_remove_unsafe`). -/
+theorem drops_and_link_evictions_safe (capK maxDepth : Nat) (ops : List (Op H K B V))
+    (hne : ((Sys.new capK maxDepth : Sys H K B V).run ops).1.sc.entryEv = 0)
+    (hio : InOrderRun (Sys.new capK maxDepth) [] ops)
+    (hrc : NoRecommit (Sys.new capK maxDepth) [] ops) : AllOK (Sys.new capK maxDepth) [] ops :=
+  Sys.run_ok_drops_links _ [] (fun _ => 0) ops (SysInv0.init capK maxDepth) (fun _ => Nat.le_refl _) hne hio hrc
+
+/-- the same statement without `NoRecommit` -/
+def C06_combined_full : Prop :=
+  ∀ (capK maxDepth : Nat) (ops : List (Op Nat Nat Nat Nat)),
+    ((Sys.new capK maxDepth : Sys Nat Nat Nat Nat).run ops).1.sc.entryEv = 0 →
+    InOrderRun (Sys.new capK maxDepth) [] ops → AllOK (Sys.new capK maxDepth) [] ops
+
+/-- link capacity 3. Q = 10 writes key 0 := 1; S = 11 (child of Q) writes key 0 := 2 and key 1; X = 12 (child of S) writes
+    key 2; an unrelated block F = 13 pushes Q's link out; `Remove(0)`; lookups of keys 1 and 2 at S and X refresh their
+    links; a second block cache for Q with the same content is committed — its link is gone, so the commit takes effect
+    and re-creates Q's entry for key 0; the lookup of key 0 at X passes S (entry dropped, link present) and returns Q's
+    value 1 instead of S's value 2. All commits are in ancestor order and no version map evicts. -/
+def witnessRecommit : List (Op Nat Nat Nat Nat) :=
+  [.blk 0 10 0, .bset 0 0 1, .bcommit 0,
+   .blk 1 11 10, .bset 1 0 2, .bset 1 1 5, .bcommit 1,
+   .blk 2 12 11, .bset 2 2 6, .bcommit 2,
+   .blk 3 13 0, .bcommit 3,
+   .srem 0, .sget 1 11, .sget 2 12,
+   .blk 5 10 0, .bset 5 0 1, .bcommit 5]
+
+theorem recommit_after_remove_unsafe : ¬ C06_combined_full := by
+  intro h
+  have hall := h 200 3 (witnessRecommit ++ [.sget 0 12]) (by decide) (InOrderRun.of_b (by decide))
+  have hop := AllOK.nth witnessRecommit (.sget 0 12) [] hall
+  have hhit : ((((Sys.new 200 3 : Sys Nat Nat Nat Nat).run witnessRecommit).1).step (.sget 0 12)).2 = .hit 1 := by decide
+  have hans := (hop [] 12 0 rfl).1 1 hhit
+  have horacle : Chain ((Sys.new 200 3 : Sys Nat Nat Nat Nat).treeRun [] witnessRecommit) 0 12 (.val 2) :=
+    oracleN_sound (n := 3) (by decide)
+  have : Entry.val (1 : Nat) = Entry.val 2 := Chain.det hans horacle
+  cases this
 
 /-! ### the maxHisDepth boundary -/
 
